@@ -80,7 +80,7 @@ def run(ctx):
                 ("CStructGenNest_quick.cfg", "nest", None, None, 4),
                 ("CStructGenVar_quick.cfg", "var", None, None, 3),
                 ("CStructGenUnion_quick.cfg", "union", None, None, 1),
-                ("CStructSim.cfg", "sim", "num=40", 60, 4)]
+                ("CStructSim.cfg", "sim", "num=30", 60, 4)]
     else:
         gens = [("CStructGen_quick.cfg", "flat", None, None, 4),
                 ("CStructGenNest_quick.cfg", "nest", None, None, 4),
@@ -89,7 +89,7 @@ def run(ctx):
                 ("CStructGen_thorough.cfg", "flat4", None, None, 8),
                 ("CStructGenNest_thorough.cfg", "nest3", None, None, 8),
                 ("CStructGenNest2_thorough.cfg", "nest2", None, None, 8),
-                ("CStructSim.cfg", "sim", "num=400", 60, 8)]
+                ("CStructSim.cfg", "sim", "num=250", 60, 8)]
     for cfg, kind, sim, depth, w in gens:
         t = threading.Thread(target=_gen, args=(cfg, kind, ctx.seed, sim, depth, w, wd, out))
         t.start()
